@@ -79,6 +79,10 @@ def generate(rng, tier):
                     "p": "X", "src_port": rng.choice([5353, 5353, 5354]),
                     "msg": {"q": [[qn, qt, int(rng.random() < 0.2)]], "id": rng.randrange(1, 60000),
                             "tc": int(rng.random() < 0.25)}})
+    if rng.random() < 0.25:
+        # the process is descheduled shortly before the close: the close then runs together with the backlog
+        ops.append({"t": round(max(0.0003, t_close - rng.choice([0.4, 0.1, 0.02, 0.001])), 6), "op": "stall", "h": "V",
+                    "dur": rng.choice([0.03, 0.15, 0.5, 1.2])})
     mode = "sync" if rng.random() < 0.25 else "async"
     # traffic after the close
     horizon = t_close + rng.choice([5.0, 60.0, 7200.0])
@@ -173,7 +177,8 @@ def execute(scenario, seed, overrides=None):
             stats["close_by_step"] += 1
 
             def on_step(n):
-                if n == k and "V" in w.hosts and st["t_call"] is None and w.hosts["V"].zc is not None:
+                if n >= k and "V" in w.hosts and st["t_call"] is None and w.hosts["V"].zc is not None and \
+                        not w.loop.stalls.get("V", 0.0) > w.now:
                     w.loop.call_soon(do_async_close)
 
             w.loop.on_step = on_step
@@ -183,6 +188,10 @@ def execute(scenario, seed, overrides=None):
             await w.sleep_until(0.0002)
             w.hosts["V"].zc.async_add_listener(probe, None)
             await w.sleep_until(scenario["t_close"])
+            until = w.loop.stalls.get("V")
+            if until is not None and until > w.now:
+                # the application that calls close lives in the stalled process
+                await w.sleep_until(until - w.t0 + 2e-9)
             if scenario["mode"] == "async":
                 do_async_close()
 
